@@ -36,6 +36,7 @@ type plan struct {
 	strm  bool   // server: StreamRequestBody
 	pre   string // handler: something touches the body before the judged bind
 	hdrs  *presetHdrs
+	where int
 }
 
 func (pl plan) cfg() srvCfg { return srvCfg{split: pl.split, lazy: pl.lazy, stream: pl.strm} }
@@ -89,9 +90,10 @@ type engine struct {
 // judge runs one round trip and reports a violation if the law does not hold.
 func (en *engine) judge(c *ev.Case, clause string, pl plan, val reflect.Value) string {
 	e := en.e
-	p := &probe{src: pl.src, op: pl.op, auto: pl.auto, typ: pl.typ, want: val, send: pl.send, pre: pl.pre, hdrs: pl.hdrs}
+	p := &probe{src: pl.src, op: pl.op, auto: pl.auto, typ: pl.typ, want: val, send: pl.send, pre: pl.pre, hdrs: pl.hdrs, where: pl.where}
 	o := en.g.getCfg(pl.cfg()).roundTrip(p)
 	e.Eval(1)
+	e.Stat("value_handed_over_"+whereName[pl.where]+"|"+sourceName[pl.src], 1)
 	if pl.hdrs != nil {
 		e.Stat("preset_headers_"+pl.hdrs.where(), 1)
 		if pl.hdrs.hasContentType() {
@@ -146,6 +148,33 @@ func (en *engine) reportCfg(c *ev.Case, clause string, p *probe, o *outcome, cfg
 	e := en.e
 	split := cfg.split
 	m := o.manner()
+	if m != "panic" && p.where != whereRequest {
+		// Is it where the value was handed over? The same value set directly on the request:
+		p0 := &probe{src: p.src, op: p.op, auto: p.auto, typ: p.typ, want: p.want, send: p.send, pre: p.pre, hdrs: p.hdrs}
+		o0 := en.g.getCfg(cfg).roundTrip(p0)
+		if o0.manner() == "" {
+			det := map[string]any{"source": sourceName[p.src], "binder": p.op, "type": p.typ.ID, "value_handed_over": whereName[p.where],
+				"sent": renderStruct(p.typ, p.want), "status": o.status, "manner": m, "note": "the same value set directly on the request round-trips"}
+			if p.send != nil {
+				det["sending_api"] = sendName[p.send.mode]
+			}
+			if p.diff != nil {
+				det["first_difference_at"] = p.diff.Path
+				det["got"] = p.got
+			}
+			if p.hasErr {
+				det["bind_error"] = p.bindErr
+			}
+			if o.sendErr != "" {
+				det["client_error"] = o.sendErr
+			}
+			e.Violation(c, clause+"|"+sourceName[p.src]+"|value-handed-over-"+whereName[p.where]+"|not-bound-as-sent",
+				fmt.Sprintf("client -> %s -> Bind().%s: the value the application put %s does not arrive (%s)", sourceName[p.src], opTitle(p.op), strings.ReplaceAll(whereName[p.where], "-", " "), m), det)
+			return
+		}
+		p, o = p0, o0
+		m = o.manner()
+	}
 	if m != "panic" && p.hdrs != nil {
 		// Is it the headers set besides the value? The same request without them:
 		p0 := &probe{src: p.src, op: p.op, auto: p.auto, typ: p.typ, want: p.want, send: p.send, pre: p.pre}
@@ -348,6 +377,7 @@ func run(e *ev.Env) {
 	en := &engine{e: e, g: newRigs()}
 	defer en.g.close()
 	e.Note("domain", domainNote)
+	e.Note("where", "the value is handed to the client directly on the request, from inside a request hook (Client.AddRequestHook; every source) or at client level (query, cookie, header)")
 	e.Note("preset-headers", "a third of the round trips also carry application-set headers (Content-Type of another kind on body-carrying requests, Accept, User-Agent, a custom one) at client level or at request level before / after the value is handed over")
 	e.Note("sending", "text sources: the struct setters, or element-by-element AddParam/AddFormData/AddHeader/SetCookie calls (keys interleaved or together), or the map setters; multipart with 1-2 files via AddFileWithReader/AddFiles/AddFile, before or after the fields")
 	e.Note("nontrivial", "a round trip whose value has a string with a character outside [A-Za-z0-9] or a slice of length != 1; distinct by (source, splitting, value)")
@@ -365,6 +395,7 @@ func run(e *ev.Env) {
 		val := genStruct(r, d, pl.typ, &budget)
 		pl.send = genSend(r, pl.src, pl.typ, val)
 		pl.hdrs = genPreset(r, pl.src)
+		pl.where = genWhere(r, pl)
 		en.judge(c, "roundtrip", pl, val)
 		if nontrivial(pl.typ, val) {
 			e.Nontrivial(sourceName[pl.src], strconv.FormatBool(pl.split), fmt.Sprint(val.Interface()))
@@ -572,7 +603,8 @@ func runRace(e *ev.Env) {
 					val := genStruct(r, d, pl.typ, &budget)
 					pl.send = genSend(r, pl.src, pl.typ, val)
 					pl.hdrs = genPreset(r, pl.src)
-					p := &probe{src: pl.src, op: pl.op, auto: pl.auto, typ: pl.typ, want: val, send: pl.send, pre: pl.pre, hdrs: pl.hdrs}
+					pl.where = genWhere(r, pl)
+					p := &probe{src: pl.src, op: pl.op, auto: pl.auto, typ: pl.typ, want: val, send: pl.send, pre: pl.pre, hdrs: pl.hdrs, where: pl.where}
 					o := rg[g].getCfg(pl.cfg()).roundTrip(p)
 					trips[g]++
 					if pl.send != nil && pl.send.mode == sendClientThenReq {
